@@ -21,6 +21,8 @@ let nat s = nat_of_int (ios s)
 
 let cmd = function
   | ["append"; o; k; c] -> CAppend (nat o, nat k, nat c)
+  | ["owns"; o; k; h] -> COwns (nat o, nat k, nat h)
+  | ["remove"; o; k; h] -> CRemove (nat o, nat k, nat h)
   | ["addfilter"; o; c; v] -> CAddFilter (nat o, nat c, v = "1")
   | ["enqueue"; o; k; a] -> CEnqueue (nat o, nat k, z_of_int (ios a))
   | ["process"; o] -> CProcess (nat o)
